@@ -180,7 +180,13 @@ func (code128Encoder) encodeWithHints(contentsStr string, hints map[gozxing.Enco
 						return nil, gozxing.NewWriterException(
 							"IllegalArgumentException: Bad number of characters for digit only encoding.")
 					}
-					patternIndex = (int(contents[position])-'0')*10 + (int(contents[position+1]) - '0')
+					digit1 := int(contents[position]) - '0'
+					digit2 := int(contents[position+1]) - '0'
+					if digit1 < 0 || digit1 > 9 || digit2 < 0 || digit2 > 9 {
+						return nil, gozxing.NewWriterException(
+							"IllegalArgumentException: Bad digit pair for code set C: %q", string(contents[position:position+2]))
+					}
+					patternIndex = digit1*10 + digit2
 					position++ // Also incremented below
 					break
 				}
